@@ -193,3 +193,31 @@ def c08_peer_reply(stream, res, impl):
             if who in hosts:
                 return "the requester itself was returned: %s" % op[:160]
     return None
+
+
+def c17_codec(stream, res, impl):
+    """every written message is read exactly once, intact and in order; websocket runs deliver every message"""
+    if stream["component"] != "codec":
+        return None
+    for op, out in zip(res, impl):
+        t = op.split()
+        if len(t) < 2:
+            continue
+        if t[1] == "stream":
+            kv = _kv(op)
+            data = bytes.fromhex(kv.get("hex", ""))
+            written = [m.hex() for m in data.split(b"\n") if m]
+            got = out.split()[1].split(",") if out.startswith("ok ") and len(out.split()) > 1 else []
+            if got != written:
+                k = 0
+                while k < min(len(got), len(written)) and got[k] == written[k]:
+                    k += 1
+                return "stream of %d messages cut at %s delivered %d messages (first difference at message %d)" % (
+                    len(written), kv.get("cuts", ""), len(got), k)
+        if t[1] == "ws":
+            kv = _kv(op)
+            n = int(kv["writers"]) * int(kv["each"])
+            okv = _kv(out)
+            if okv.get("received") != str(n) or okv.get("intact") != str(n) or okv.get("order") != "ok":
+                return "websocket %s run with %s writers x %s messages: %s" % (kv.get("lib"), kv["writers"], kv["each"], out)
+    return None
